@@ -110,11 +110,11 @@ class Ctx:
                    'arguments passed by name to a callee of the package sit in the positions of the parameters of the same name (no two swapped); '
                    'no parameter defaults to a mutable object (it would be shared between calls, hands and instances)',
                    got='; '.join(w for _, w in sw[:2]) if sw else '')
-            if fi.cls is not None:
+            if True:
                 kw = _known_writes().get(f'{fi.module}:{qn}')
                 if kw is not None:
                     from .defined import written_attrs
-                    now = written_attrs(fi.node)
+                    now = written_attrs(fi.node, names[fi.module])
                     new = sorted(a for a in now if a not in kw)
                     more = sorted(f'{a}: {now[a]} writing sites, {kw[a]} when reviewed' for a in now if a in kw and now[a] > kw[a])
                     where = fi.node
